@@ -153,7 +153,9 @@ def run_ops_df(case):
 
 
 def shape_text(s, n):
-    name = {"plain": "Nn%d" % n, "slash": "Nn%d/Mm" % n, "hash": "Nn#%d" % n}[s["nameKind"]]
+    # (the offending '#' or '/' of a bad name sits in the middle of the name or at its very end)
+    name = {"plain": "Nn%d" % n, "slash": ["Nn%d/Mm", "Nn%d/"][n % 2] % n if not s["takesValue"] else "Nn%d/Mm" % n,
+            "hash": ["Nn#%d", "Nn%d#", "Nn%d##"][n % 3] % n}[s["nameKind"]]
     full = name + ("/#" if s["takesValue"] else "")
     inner = ["Red"]
     if s["nPH"] >= 1:
